@@ -954,4 +954,178 @@ theorem restart_cells (cfg : Cfg) (Ta Tn : String) (ha : cfg.anon = some Ta) (c 
   · rw [hclosed]
   · simp only [cellOf, svcCell, hmem, hdisk, htold, hgr]
 
+/-! ### assembly: the run up to the crash, the crash, the restart, the remaining points -/
+
+theorem recover_cell (cfg : Cfg) (Ta Tn : String) (ha : cfg.anon = some Ta) (hn : cfg.named = some Tn)
+    (hne : Ta ≠ Tn) (c : World) (hp : c.svc.persist = true) (hwk : ∀ T i e, c.svc.disk T i = some e → e.id = i)
+    (rest : List NOp) (id : String) :
+    cellOf Ta Tn (nrun cfg (c.restart cfg) rest) id =
+      crun cfg id { ma := c.svc.disk Ta id, da := c.svc.disk Ta id, mn := c.svc.disk Tn id, dn := c.svc.disk Tn id,
+                    ta := lastTold c.svc.told Ta id, tn := lastTold c.svc.told Tn id, g := none } rest := by
+  obtain ⟨hc, hcell⟩ := restart_cells cfg Ta Tn ha c hp hwk
+  rw [(nrun_sim cfg Ta Tn ha hn hne _ hc rest).2 id, hcell id]
+
+/-- the world right before the operation in flight: coherent, every cell NORMAL at the level of the spec -/
+theorem before_crash (cfg : Cfg) (Ta Tn : String) (ha : cfg.anon = some Ta) (hn : cfg.named = some Tn)
+    (hne : Ta ≠ Tn) (pre : List NOp) :
+    Coh Ta Tn (nrun cfg {} pre) ∧
+    ∀ i, Norm cfg (nodeLevel cfg.noRec pre i) (cellOf Ta Tn (nrun cfg {} pre) i) ∧
+      Faithful ((nrun cfg {} pre).svc.disk Ta i) ∧ Faithful ((nrun cfg {} pre).svc.disk Tn i) ∧
+      (nrun cfg {} pre).groups i = groupLevel pre i := by
+  obtain ⟨hc, hcell⟩ := nrun_sim cfg Ta Tn ha hn hne {} (coh_init Ta Tn) pre
+  refine ⟨hc, fun i => ?_⟩
+  have := uninterrupted_cell cfg i pre
+  rw [← cellOf_init Ta Tn i, ← hcell i] at this
+  exact this
+
+/-- a cell RESTARTED from a disk and a log that agree with a NORMAL cell is NORMAL -/
+theorem norm_restarted (cfg : Cfg) (v : Nat) (c : Cell) (h : Norm cfg v c) (da dn : Option ES) (ta tn : Nat)
+    (h1 : da = c.da) (h2 : dn = c.dn) (h3 : ta = c.ta) (h4 : tn = c.tn) :
+    Norm cfg v { ma := da, da := da, mn := dn, dn := dn, ta := ta, tn := tn, g := none } := by
+  subst h1 h2 h3 h4
+  exact ⟨h.da, h.da, h.dn, h.dn, h.ta, h.tn, fun x hx => by cases hx⟩
+
+theorem crash_other_final (cfg : Cfg) (Ta Tn : String) (ha : cfg.anon = some Ta) (hn : cfg.named = some Tn)
+    (hne : Ta ≠ Tn) (ops : List NOp) (k j : Nat) (hk : ∀ i l t, ops[k]? ≠ some (.point i l t)) (id : String) :
+    ∃ v, Norm cfg v (cellOf Ta Tn (nrecover cfg {} ops k j) id) := by
+  obtain ⟨hcoh, hb⟩ := before_crash cfg Ta Tn ha hn hne (ops.take k)
+  have hcr : (ncrashAt cfg {} ops k j).svc.persist = true ∧
+      (ncrashAt cfg {} ops k j).svc.disk = (nrun cfg {} (ops.take k)).svc.disk ∧
+      (ncrashAt cfg {} ops k j).svc.told = (nrun cfg {} (ops.take k)).svc.told := by
+    unfold ncrashAt
+    cases hop : ops[k]? with
+    | none => simp [nrunMicros, hcoh.persist]
+    | some op =>
+      cases op with
+      | point i l t => exact absurd hop (hk i l t)
+      | taskRestart =>
+        simp only [Option.map_some, Option.getD_some]
+        obtain ⟨p, d, tt⟩ := crash_elsewhere cfg Ta ha (nrun cfg {} (ops.take k)) j
+        exact ⟨by rw [p]; exact hcoh.persist, d, tt⟩
+  obtain ⟨p, d, tt⟩ := hcr
+  unfold nrecover
+  rw [recover_cell cfg Ta Tn ha hn hne _ p (by rw [d]; exact hcoh.wkd), d, tt]
+  exact ⟨_, norm_run cfg id _ _ (norm_restarted cfg _ _ (hb id).1 _ _ _ _ rfl rfl rfl rfl) _⟩
+
+/-- the record of a point of level `l` did (`p`) or did not reach a bucket that held `o` -/
+def dsk (p : Bool) (l : Nat) (e : ES) (o : Option ES) : Option ES :=
+  if p = true then (if l = 0 then none else some e) else o
+
+theorem faithful_dsk (p : Bool) (l : Nat) (e : ES) (o : Option ES) (he : e.level = l) (h : Faithful o) :
+    Faithful (dsk p l e o) := by
+  intro e' he'
+  unfold dsk at he'
+  split at he'
+  · split at he'
+    · cases he'
+    · cases he'; rw [he]; assumption
+  · exact h e' he'
+
+theorem optLevel_dsk (p : Bool) (l : Nat) (e : ES) (o : Option ES) (he : e.level = l) :
+    optLevel (dsk p l e o) = if p = true then l else optLevel o := by
+  unfold dsk
+  split
+  · split
+    · rename_i h0; simp [optLevel, h0]
+    · simp [optLevel, he]
+  · rfl
+
+theorem crash_point_final (cfg : Cfg) (Ta Tn : String) (ha : cfg.anon = some Ta) (hn : cfg.named = some Tn)
+    (hne : Ta ≠ Tn) (ops : List NOp) (k j : Nat) (i0 : String) (l : Nat) (t : Int)
+    (hk : ops[k]? = some (.point i0 l t)) (id : String) :
+    let L := nodeLevel cfg.noRec (ops.take k) i0
+    let r := reached (announces cfg.sco cfg.noRec ((groupLevel (ops.take k) i0).getD L) l) j
+    let dA := if r.diskA = true then l else L
+    let dN := if r.diskN = true then l else L
+    let e := if hasPoint i0 (ops.drop (k + 1)) = true then reconcile dA dN else (dA, dN)
+    let cf := cellOf Ta Tn (nrecover cfg {} ops k j) id
+    (id = i0 → quietFrom cfg.sco cfg.noRec e.1 i0 none (ops.drop (k + 1)) = true →
+      optLevel cf.ma = e.1 ∧ optLevel cf.da = e.1 ∧ optLevel cf.mn = e.2 ∧ optLevel cf.dn = e.2 ∧
+      cf.ta = (if r.toldA = true then l else L) ∧ cf.tn = (if r.toldN = true then l else L)) ∧
+    (¬ (id = i0 ∧ quietFrom cfg.sco cfg.noRec e.1 i0 none (ops.drop (k + 1)) = true) → ∃ v, Norm cfg v cf) := by
+  intro L r dA dN e cf
+  obtain ⟨hcoh, hb⟩ := before_crash cfg Ta Tn ha hn hne (ops.take k)
+  obtain ⟨hN0, hfa0, hfn0, hg0⟩ := hb i0
+  generalize hbw : nrun cfg {} (ops.take k) = bw at hcoh hb hN0 hfa0 hfn0 hg0
+  -- the crash
+  have hcrash := crash_in_point cfg Ta Tn ha hn bw hcoh.persist i0 l t L hN0.ma hN0.mn j
+  rw [hg0, emits_eq_announces] at hcrash
+  have hc : ncrashAt cfg {} ops k j = nrunMicros bw ((nplan cfg bw (.point i0 l t)).take j) := by
+    unfold ncrashAt; simp only [hk, Option.map_some, Option.getD_some, hbw]
+  obtain ⟨p, d, tt⟩ := hcrash
+  rw [← hc] at p d tt
+  have hwk : ∀ T i e', (ncrashAt cfg {} ops k j).svc.disk T i = some e' → e'.id = i := by
+    rw [d]; exact updIf_wk _ _ _ _ (updIf_wk _ _ _ _ hcoh.wkd)
+  have hcf : cf = crun cfg id _ (ops.drop (k + 1)) := recover_cell cfg Ta Tn ha hn hne _ p hwk _ id
+  rw [d, tt] at hcf
+  obtain ⟨cA, cN⟩ := updIf_cells r.diskA r.diskN Ta Tn hne i0 l t bw.svc.disk id
+  obtain ⟨uA, uN⟩ := told_cells r.toldA r.toldN Ta Tn hne i0 l t bw.svc.told id
+  rw [cA, cN, uA, uN] at hcf
+  by_cases hid : id = i0
+  · subst hid
+    simp only [and_true] at hcf
+    -- the RESTARTED cell of the id in flight
+    have hcf' : cf = crun cfg id
+        { ma := dsk r.diskA l { id := id, level := l, time := t } (bw.svc.disk Ta id),
+          da := dsk r.diskA l { id := id, level := l, time := t } (bw.svc.disk Ta id),
+          mn := dsk r.diskN l { id := id, level := l, time := t } (bw.svc.disk Tn id),
+          dn := dsk r.diskN l { id := id, level := l, time := t } (bw.svc.disk Tn id),
+          ta := (if r.toldA = true then l else lastTold bw.svc.told Ta id),
+          tn := (if r.toldN = true then l else lastTold bw.svc.told Tn id), g := none } (ops.drop (k + 1)) := hcf
+    have hfin := fresh_final cfg id _
+      (⟨rfl, rfl, faithful_dsk _ _ _ _ rfl hfa0, faithful_dsk _ _ _ _ rfl hfn0, rfl⟩ : Fresh
+        { ma := dsk r.diskA l { id := id, level := l, time := t } (bw.svc.disk Ta id),
+          da := dsk r.diskA l { id := id, level := l, time := t } (bw.svc.disk Ta id),
+          mn := dsk r.diskN l { id := id, level := l, time := t } (bw.svc.disk Tn id),
+          dn := dsk r.diskN l { id := id, level := l, time := t } (bw.svc.disk Tn id),
+          ta := (if r.toldA = true then l else lastTold bw.svc.told Ta id),
+          tn := (if r.toldN = true then l else lastTold bw.svc.told Tn id), g := none }) (ops.drop (k + 1))
+    have hdA : optLevel (dsk r.diskA l { id := id, level := l, time := t } (bw.svc.disk Ta id)) = dA := by
+      rw [optLevel_dsk r.diskA l { id := id, level := l, time := t } _ rfl, show optLevel (bw.svc.disk Ta id) = L from hN0.da]
+    have hdN : optLevel (dsk r.diskN l { id := id, level := l, time := t } (bw.svc.disk Tn id)) = dN := by
+      rw [optLevel_dsk r.diskN l { id := id, level := l, time := t } _ rfl, show optLevel (bw.svc.disk Tn id) = L from hN0.dn]
+    simp only [hdA, hdN] at hfin
+    rw [← hcf'] at hfin
+    obtain ⟨hq, hnq⟩ := hfin
+    refine ⟨fun _ hqt => ?_, fun hn' => ?_⟩
+    · obtain ⟨a1, a2, a3, a4, a5, a6⟩ := hq hqt
+      refine ⟨a1, a2, a3, a4, ?_, ?_⟩
+      · rw [a5]; show (if r.toldA = true then l else _) = _
+        rw [show lastTold bw.svc.told Ta id = L from hN0.ta]
+      · rw [a6]; show (if r.toldN = true then l else _) = _
+        rw [show lastTold bw.svc.told Tn id = L from hN0.tn]
+    · have : quietFrom cfg.sco cfg.noRec e.1 id none (ops.drop (k + 1)) = false := by
+        cases hqq : quietFrom cfg.sco cfg.noRec e.1 id none (ops.drop (k + 1))
+        · rfl
+        · exact absurd ⟨rfl, hqq⟩ hn'
+      exact hnq this
+  · have hid' : ¬ i0 = id := fun hh => hid hh.symm
+    simp only [hid', and_false, if_false] at hcf
+    refine ⟨fun h => absurd h hid, fun _ => ?_⟩
+    rw [hcf]
+    exact ⟨_, norm_run cfg id _ _ (norm_restarted cfg _ _ (hb id).1 _ _ _ _ rfl rfl rfl rfl) _⟩
+
+/-- `crash_point_final` in the vocabulary of the specification (`nodeCrashEnd`) -/
+theorem crash_point_end (cfg : Cfg) (Ta Tn : String) (ha : cfg.anon = some Ta) (hn : cfg.named = some Tn)
+    (hne : Ta ≠ Tn) (ops : List NOp) (k j : Nat) (i0 : String) (l : Nat) (t : Int)
+    (hk : ops[k]? = some (.point i0 l t)) (id : String) :
+    ∃ q e, nodeCrashEnd cfg.sco cfg.noRec ops k j = some (i0, q, e) ∧
+      (id = i0 → q = true →
+        optLevel (cellOf Ta Tn (nrecover cfg {} ops k j) id).ma = e.lvA ∧
+        optLevel (cellOf Ta Tn (nrecover cfg {} ops k j) id).da = e.lvA ∧
+        optLevel (cellOf Ta Tn (nrecover cfg {} ops k j) id).mn = e.lvN ∧
+        optLevel (cellOf Ta Tn (nrecover cfg {} ops k j) id).dn = e.lvN ∧
+        (cellOf Ta Tn (nrecover cfg {} ops k j) id).ta = e.tA ∧
+        (cellOf Ta Tn (nrecover cfg {} ops k j) id).tn = e.tN) ∧
+      (¬ (id = i0 ∧ q = true) → ∃ v, Norm cfg v (cellOf Ta Tn (nrecover cfg {} ops k j) id)) := by
+  obtain ⟨h1, h2⟩ := crash_point_final cfg Ta Tn ha hn hne ops k j i0 l t hk id
+  let L := nodeLevel cfg.noRec (ops.take k) i0
+  let r := reached (announces cfg.sco cfg.noRec ((groupLevel (ops.take k) i0).getD L) l) j
+  let dA := if r.diskA = true then l else L
+  let dN := if r.diskN = true then l else L
+  let e := if hasPoint i0 (ops.drop (k + 1)) = true then reconcile dA dN else (dA, dN)
+  exact ⟨quietFrom cfg.sco cfg.noRec e.1 i0 none (ops.drop (k + 1)),
+    { lvA := e.1, tA := if r.toldA = true then l else L, lvN := e.2, tN := if r.toldN = true then l else L },
+    by simp only [nodeCrashEnd, hk]; rfl, h1, h2⟩
+
 end Kap.C08
